@@ -8,6 +8,19 @@ BASELINE = ("cd /repo && env -u OTEL2PUML_VERIF /venv/bin/python -m pytest -ra -
 
 # id -> (category, technique, level text, level note, design ref)
 TABLE = {
+    "C15": ("proof",
+            "Coq theorem by induction over run histories of any length (store-stability invariant) over the composed ingest/clean/unique/stream models; correspondence against real separate-process CLI histories on one SQLite file",
+            "Universal Coq theorem (runs_repeatable) for histories of ANY length and every batch size about the composition of the "
+            "ingestion, cleaning, unique-graph and streaming models in otel_to_pv's order: under Good (first window exists, int64 "
+            "timestamps, parent links inside their own trace or dangling) every run completes and runs with the same unique-graph flag "
+            "produce identical output; the one-step lemma shows the nodes and association tables return to the same lists after every "
+            "run. The pinned tree is refuted by two theorems with the witnesses that were repaired by fix: commits. Tied to /repo on "
+            "every run by executing real CLI histories (python -m tel2puml otel2pv, separate processes, one database file) and comparing "
+            "per run completion and the traces emitted per workflow with `history` evaluated in coqc.",
+            "Trusted: Coq kernel+vm_compute; the component models (each under its own correspondence: C10, C11, C09, C12); SQLite file "
+            "persistence; the CLI is driven through a jq_query mapping; harness. Outside Good (cross-trace parents, negative "
+            "timestamps) the theorem does not apply and two Examples show repeatability genuinely fails there.",
+            "4/C15"),
     "C09": ("proof",
             "Coq theorems (canonical tree digest <-> isomorphism up to sibling order, paging independence, one representative per class) with the digest function as a Section hypothesis; in-kernel differential correspondence against find_unique_graphs",
             "Universal Coq theorems about a Gallina model of find_unique_graphs (candidate roots, root paging, per-batch child maps, "
@@ -82,7 +95,7 @@ TABLE = {
 }
 
 # properties whose check is finished and quiet on the unchanged tree
-READY = {"C08", "C09", "C10", "C11", "C12", "C16"}
+READY = {"C08", "C09", "C10", "C11", "C12", "C15", "C16"}
 
 NOT_YET = {
 }
